@@ -79,7 +79,7 @@ def gen(rng, i, tier):
         labs = G.labels(rng, uni, rng.randint(2, 4))
         dom = (1, -1) if spin else (0, 1)
         calls = []
-        ncalls = rng.choice([1, 1, 2])
+        ncalls = rng.choice([1, 1, 2, 2])
         for _k in range(ncalls):
             if not spin and rng.random() < 0.35:
                 c = c06.gen_call(rng, labs, uni)
@@ -136,18 +136,28 @@ def gen(rng, i, tier):
             c["c"]["lam"] = [W.numerator, W.denominator]
         target = rng.randrange(4)
         deg = rng.choice([2, 2, 3]) if target in (0, 3) else None
-        return {"spin": spin, "obj": G.jraw(obj), "calls": calls, "target": target, "deg": deg, "labs": [C.enc(l) for l in labs]}
+        sym = (1 if rng.random() < 0.6 else rng.randint(1, len(calls))) if rng.random() < 0.4 else 0
+        return {"spin": spin, "obj": G.jraw(obj), "calls": calls, "target": target, "deg": deg, "labs": [C.enc(l) for l in labs],
+                "sym": sym}
     raise RuntimeError("no feasible workflow generated")
 
 
 def build(case):
     import qubovert as qv
     H = (qv.PCSO if case["spin"] else qv.PCBO)({k: C.num(v) for k, v in G.unjraw(case["obj"])})
+    nsym = case.get("sym", 0)       # the README's way: the first nsym constraints get a symbol as weight, the value comes later
+    if nsym:
+        import sympy
+        sym = sympy.Symbol("lam")
     with warnings.catch_warnings():
         warnings.simplefilter("ignore")
-        for c in case["calls"]:
+        for j, c in enumerate(case["calls"]):
             cc = c["c"]
             lam = C.num(F(*cc["lam"]))
+            if nsym and j == nsym:
+                H = H.subs({sym: lam})
+            if j < nsym:
+                lam = sym
             if c["t"] == "cmp":
                 P = {k: C.num(v) for k, v in G.unjraw(cc["P"])}
                 kw = {"lam": lam}
@@ -157,6 +167,8 @@ def build(case):
             else:
                 ops = [c06.pyop(o) for o in cc["ops"]]
                 getattr(H, "add_constraint_%s%s" % ("eq_" if cc["eq"] else "", cc["g"]))(*ops, lam=lam)
+        if nsym and nsym >= len(case["calls"]):
+            H = H.subs({sym: C.num(F(*case["calls"][0]["c"]["lam"]))})
     return H
 
 
@@ -300,6 +312,8 @@ def tags(case, out):
     t = ["family:" + ("PCSO" if case["spin"] else "PCBO"), "target:%d" % case["target"]]
     for c in case["calls"]:
         t.append("constraint:" + (c["c"]["rel"] if c["t"] == "cmp" else ("eq_" if c["c"]["eq"] else "") + c["c"]["g"]))
+    if case.get("sym"):
+        t.append("weight-symbolic-then-subs:%s" % ("all" if case["sym"] >= len(case["calls"]) else "first-then-numeric"))
     if out.get("skip"):
         t.append("skipped:too-large")
     if "error" in out:
